@@ -5,9 +5,10 @@ authorization endpoints (parse_request -> process_request -> do_response, driven
 host application drives them), Message.request / to_urlencoded, the form_post page, and the OIDC
 end-session endpoint (post_logout_redirect_uri).
 
-Model side (coqc): Model/Uri.v (unquote / urlparse / hostname / port / parse_qs / verify_uri / decide)
-and Model/Delivery.v (query, fragment, form_post, logout target) are evaluated on the same inputs with
-the implementation's observed outputs embedded.
+Model side (coqc): Model/Uri.v (unquote / urlparse / hostname / port / parse_qs / verify_uri / decide),
+Model/Delivery.v (query, fragment, form_post, logout target) and Model/Flight.v (several requests in flight
+at one endpoint object: the schedule of calls is run on the model's state-passing endpoint) are evaluated on
+the same inputs with the implementation's observed outputs embedded.
 
 Oracle (independent of the model, written from the property text): an RFC 3986 regular-expression
 splitter and a component comparison on the percent-decoded redirect URI against the *table* of
@@ -31,13 +32,20 @@ RULE = ("redirect_uri strings derived from every registered URI of 16 client con
         "blank, fragments, whitespace and control characters, non-ASCII), then random multi-fault and a malformed "
         "random stream; each string is run through the real verify_uri for OIDC and OAuth2 endpoint types, a sample "
         "through the whole authorization endpoint with response types x response modes x hostile state values; "
-        "end-session requests with mutated post_logout_redirect_uri; a case is distinct by (configuration, endpoint "
-        "type, uri, mode, state)")
+        "end-session requests with mutated post_logout_redirect_uri; flights of 2-4 authorization requests (up to three "
+        "clients with different registrations, the same client twice with two of its URIs, refused URIs in between, "
+        "response types x modes) whose calls parse_request / process_request or setup_auth|create_session + authz_part2 "
+        "/ do_response are interleaved on ONE endpoint object: all parse orders x all processing orders for two and "
+        "three requests, then random merges of the calls; a case is distinct by (configuration, endpoint "
+        "type, uri, mode, state) resp. (requests, schedule)")
 ASSUMPTIONS = [
     "CPython urllib.parse / html.escape behave as modelled on the ASCII fragment (validated differentially on every run)",
     "bracketed hosts outside the literal table of Model/Uri.v and percent-escapes decoding to bytes >= 0x80 are Unmodelled",
     "a user agent decodes exactly the five character references html.escape emits (html_unescape5) inside attribute values",
     "registered query dictionaries have unique keys (Python dict) and list-of-string values",
+    "flights: the client registrations do not change while requests are in flight; the response arguments (code, tokens, "
+    "state, iss, client_id) are taken as issued by session management (their binding to the request is checked by the "
+    "oracle through the session manager, not modelled); calls are interleaved at call granularity (no preemption inside a call)",
 ]
 
 LOOP6 = "0000:0000:0000:0000:0000:0000:0000:0001"
@@ -945,6 +953,434 @@ class Run:
         self.count_unmodelled()
 
 
+# ------------------------------------------------------------------ several requests in flight at one endpoint object
+FLIGHT_CLIENTS = ["client_1", "client_2", "client_3"]
+EV_SHORT = {"parse": "P", "process": "X", "auth": "A", "part2": "Z", "respond": "R"}
+EV_COQ = {"parse": "EvParse", "process": "EvProcess", "auth": "EvAuth", "part2": "EvPart2", "respond": "EvRespond"}
+FLIGHT_CONFIGS = ["web-plain", "web-query", "web-multi", "web-userinfo", "web-str", "web-str-query", "web-loop", "web-deep",
+                  "native-v4", "native-v4-noport", "native-v6", "native-name", "native-https"]
+
+
+def sched_text(sched):
+    return " ".join("%s%d" % (EV_SHORT[k], i) for k, i in sched)
+
+
+def life(spec, i):
+    """the calls a host makes for one request, in their order"""
+    mid = [("process", i)] if spec["cont"] == "process" else [("auth", i), ("part2", i)]
+    return [("parse", i)] + mid + [("respond", i)]
+
+
+def sched_parse_all(specs, parse_order, proc_order, respond_late):
+    """all requests parsed first, then processed (or continued after login) in proc_order"""
+    sched = [("parse", i) for i in parse_order]
+    for i in proc_order:
+        sched += life(specs[i], i)[1:-1]
+        if not respond_late:
+            sched.append(("respond", i))
+    if respond_late:
+        sched += [("respond", i) for i in proc_order]
+    return sched
+
+
+def sched_split_login(specs, parse_order, auth_order, proc_order, respond_late):
+    """all parsed, then everybody who is shown a login page is (auth_order), then they come back in proc_order"""
+    sched = [("parse", i) for i in parse_order]
+    sched += [("auth", i) for i in auth_order if specs[i]["cont"] != "process"]
+    for i in proc_order:
+        sched.append(("process", i) if specs[i]["cont"] == "process" else ("part2", i))
+        if not respond_late:
+            sched.append(("respond", i))
+    if respond_late:
+        sched += [("respond", i) for i in proc_order]
+    return sched
+
+
+def sched_random(rng, specs):
+    """a random merge of the requests' lives (each keeps its own order)"""
+    lives = [life(sp, i) for i, sp in enumerate(specs)]
+    sched = []
+    while any(lives):
+        l = rng.choice([l for l in lives if l])
+        sched.append(l.pop(0))
+    return sched
+
+
+def permutations(l):
+    import itertools
+    return [list(p) for p in itertools.permutations(l)]
+
+
+class Flights:
+    """Several authorization requests (different clients, redirect URIs, response modes) whose calls are
+    interleaved on ONE endpoint object, the way a host application serves concurrent user agents or continues
+    a flow after a login page.  Oracle (property text): every response goes to the redirect URI of ITS OWN
+    request, a URI registered for ITS OWN client, and carries its own state / code."""
+
+    def __init__(self, run_):
+        self.run_, self.ctx = run_, run_.ctx
+        self.cases = []
+        self.saved = {}
+
+    # ---- clients
+    def prepare(self, op):
+        import srv
+        if id(op) in self.saved:
+            return
+        self.saved[id(op)] = (op, {c: copy.deepcopy(op.context.cdb.get(c)) for c in FLIGHT_CLIENTS})
+        for cid in FLIGHT_CLIENTS:
+            if cid not in op.context.cdb:
+                op.context.cdb[cid] = srv.client_record(cid)
+                op.server.keyjar.add_symmetric(cid, op.context.cdb[cid]["client_secret"])
+
+    def restore(self):
+        for op, saved in self.saved.values():
+            for cid, rec in saved.items():
+                if rec is None:
+                    op.context.cdb.pop(cid, None)
+                else:
+                    op.context.cdb[cid] = rec
+        self.saved = {}
+
+    # ---- one request of a flight
+    def spec(self, rng, etype, i, cid, cfg, uri="exact", rtype=None, mode="random", cont=None, state=None):
+        name, app, regs = cfg
+        if uri == "exact":
+            label, uri = "exact", reg_exact(rng.choice(regs))
+        elif uri == "mutant":
+            label, uri = rng.choice(mutants_single(rng.choice(regs)))
+        elif uri is None:
+            label = "no-redirect-uri"
+        else:
+            label = "given"
+        if rtype is None:
+            rtype = rng.choice(RTYPES_OIDC if etype == "oidc" else RTYPES_OAUTH)
+        if mode == "random":
+            mode = rng.choice(MODES)
+        if cont is None:
+            cont = rng.choice(["process", "process", "process", "setup_auth", "create_session"])
+        if state is None:
+            state = "s%d-%s" % (i, hostile(rng)) if rng.random() < 0.5 else "s%d" % i
+        req = {"client_id": cid, "response_type": rtype, "scope": "openid" if etype == "oidc" else "profile",
+               "state": state, "nonce": "n%d" % i}
+        if uri is not None:
+            req["redirect_uri"] = uri
+        if mode:
+            req["response_mode"] = mode
+        try:
+            state.encode("utf-8")
+        except UnicodeEncodeError:
+            req["state"] = "s%d" % i
+        return {"cid": cid, "config": name, "mutation": label, "request": req, "cont": cont}
+
+    # ---- the host application
+    def host(self, op, specs, sched):
+        """run the calls of `sched` on op.ep; returns (answers in the order they are handed out, per-request notes)"""
+        from idpyoidc.message.oauth2 import ResponseMessage
+        ep = op.ep
+        hi = {"headers": {}}
+        slots, answers, notes = {}, [], {}
+        Op.current = op
+        for kind, i in sched:
+            sp = specs[i]
+            sl = slots.get(i)
+            if kind == "parse":
+                slots.pop(i, None)
+                try:
+                    p = ep.parse_request(dict(sp["request"]), http_info=hi)
+                except Exception as e:
+                    answers.append({"i": i, "kind": "raised", "exc": type(e).__name__})
+                    continue
+                if isinstance(p, ResponseMessage) and "error" in p:
+                    answers.append({"i": i, "kind": "direct", "error": p.to_dict()})
+                    continue
+                slots[i] = {"stage": "parsed", "p": p}
+                notes[i] = {"parsed_redirect_uri": p.get("redirect_uri")}
+                continue
+            if sl is None:
+                continue
+            p = sl["p"]
+            try:
+                if kind == "process" and sl["stage"] == "parsed":
+                    op.issued = None
+                    sl["args"] = ep.process_request(p, http_info=hi)
+                    sl["issued"], sl["stage"] = op.issued, "answer"
+                elif kind == "auth" and sl["stage"] == "parsed":
+                    cinfo = op.context.cdb[sp["cid"]]
+                    if sp["cont"] == "setup_auth":
+                        # the login page was shown; the host comes back with the parsed request it kept
+                        info = ep.setup_auth(p, p["redirect_uri"], cinfo, cookie=None)
+                        sl["sid"] = info["session_id"]
+                    else:
+                        # example/flask_op/views.py verify(): the request travels through the login form
+                        # url-encoded, the session is created directly
+                        from idpyoidc.time_util import utc_time_sans_frac
+                        picked = ep.pick_authn_method(p, p["redirect_uri"])
+                        p2 = type(p)().from_urlencoded(p.to_urlencoded())
+                        sl["sid"] = ep.create_session(p2, "diana", picked["acr"], utc_time_sans_frac(), picked["method"])
+                        sl["p"] = p2
+                    sl["stage"] = "authed"
+                elif kind == "part2" and sl["stage"] == "authed":
+                    op.issued = None
+                    sl["args"] = ep.authz_part2(request=p, session_id=sl["sid"])
+                    sl["issued"], sl["stage"] = op.issued, "answer"
+                elif kind == "respond" and sl["stage"] == "answer":
+                    args = sl["args"]
+                    slots.pop(i)
+                    a = {"i": i, "kind": "other", "what": None}
+                    if "redirect_location" in args or "http_response" in args or "response_args" not in args and "response_msg" not in args:
+                        a["what"] = sorted(args.keys()) if hasattr(args, "keys") else str(type(args))
+                        answers.append(a)
+                        continue
+                    ra = args.get("response_args")
+                    a.update(return_uri=args.get("return_uri"), final_args=list(ra.items()) if ra is not None else None,
+                             issued=sl.get("issued"))
+                    try:
+                        info = ep.do_response(request=p, **args)
+                    except Exception as e:
+                        # nothing is handed to the user agent
+                        a["what"] = "%s at do_response: %s" % (type(e).__name__, str(e)[:200])
+                        answers.append(a)
+                        continue
+                    placement = info.get("response_placement", ep.response_placement)
+                    if placement == "url":
+                        a.update(kind="redirect", text=info["response"])
+                    else:
+                        a.update(kind="page", text=info["response"])
+                    answers.append(a)
+            except Exception as e:
+                slots.pop(i, None)
+                answers.append({"i": i, "kind": "other", "what": "%s at %s: %s" % (type(e).__name__, kind, str(e)[:200])})
+        Op.current = None
+        return answers, notes
+
+    # ---- the oracle
+    def own_target(self, sp, etype):
+        cfg = [c for c in CONFIGS if c[0] == sp["config"]][0]
+        name, app, regs = cfg
+        uri = sp["request"].get("redirect_uri")
+        if uri == "":
+            uri = None
+        if uri is not None:
+            allowed, reasons = oracle_match(uri, regs, app == "native")
+            return uri, allowed, reasons, regs
+        allowed = len(regs) == 1 and etype == "oauth2"
+        return (reg_exact(regs[0]) if len(regs) == 1 else None), allowed, ["no redirect_uri in the request"], regs
+
+    def oracle(self, op, etype, specs, sched, a, rec):
+        ctx = self.ctx
+        i = a["i"]
+        sp = specs[i]
+        req = sp["request"]
+        own, allowed, reasons, regs = self.own_target(sp, etype)
+        where = "request %d (%s, redirect_uri %r, state %r) in schedule [%s]" % (i, sp["cid"], req.get("redirect_uri"), req.get("state"), sched_text(sched))
+        if a["kind"] not in ("redirect", "page"):
+            return
+        text = a["text"]
+        if a["kind"] == "page":
+            fr = FormReader()
+            fr.feed(text)
+            fr.close()
+            actual = fr.forms[0].get("action") if fr.forms else None
+        else:
+            actual = text
+        if not allowed:
+            ctx.violation(sig_of(reasons), "authorization endpoint sends the user agent to %r for %s although %s; registered %r"
+                          % ((actual or "")[:300], where, ",".join(reasons), [reg_exact(r) for r in regs]), rec)
+            return
+        # (1) the target is the redirect URI of the request being answered
+        if a["kind"] == "page":
+            ok = actual == own
+        else:
+            # own scheme / authority / path, own query parameters first, then nothing but what was issued
+            u, r = UP.urlsplit(actual), UP.urlsplit(own)
+            own_q = UP.parse_qsl(r.query, keep_blank_values=True)
+            got_q = UP.parse_qsl(u.query, keep_blank_values=True)
+            sent_q = expect_pairs(a.get("final_args") or [])
+            ok = (actual.startswith(own) and (u.scheme, u.netloc, u.path) == (r.scheme, r.netloc, r.path)
+                  and got_q[:len(own_q)] == own_q and got_q[len(own_q):] in ([], sent_q))
+        if not ok:
+            others = []
+            for j, other in enumerate(specs):
+                o = self.own_target(other, etype)[0]
+                if j != i and o and actual is not None and o != own and (actual == o or actual.startswith(o)):
+                    others.append("request %d of %s (%r)" % (j, other["cid"], o))
+            # is the place it went to at least registered for the client of this request?
+            base = (actual or "").split("#", 1)[0]
+            cand = [base, base.split("?", 1)[0]] + [o for o in (self.own_target(x, etype)[0] for x in specs) if o and (actual or "").startswith(o)]
+            registered_here = any(oracle_match(c, regs, [c_ for c_ in CONFIGS if c_[0] == sp["config"]][0][1] == "native")[0] for c in cand)
+            ctx.violation("cross-request-target" if others else "target-changed",
+                          "the response for %s is sent to %r%s, not to the redirect URI of its own request %r%s"
+                          % (where, (actual or "")[:300], " = the target of " + ", ".join(others) if others else "", own,
+                             "" if registered_here else " (not registered for %s)" % sp["cid"]), rec)
+            return
+        # (2) it delivers exactly what was issued for this request, state included
+        obs = {"redirect": text if a["kind"] == "redirect" else None, "page": text if a["kind"] == "page" else None,
+               "final_args": a.get("final_args"), "issued": a.get("issued"), "return_uri": a.get("return_uri")}
+        n0 = len(ctx.violations)
+        oracle_delivery(ctx, obs, req, rec, own)
+        for v in ctx.violations[n0:]:
+            v["what"] = "%s: %s" % (where, v["what"])
+        # (3) what is delivered was issued to the client of this request, for this request
+        issued = dict(expect_pairs((a.get("issued") if a["kind"] == "page" else a.get("final_args")) or []))
+        if "client_id" in issued and issued["client_id"] != sp["cid"]:
+            ctx.violation("response-of-other-client", "the response for %s names client_id %r" % (where, issued["client_id"]), rec)
+        if "code" in issued:
+            try:
+                si = op.context.session_manager.get_session_info_by_token(issued["code"], handler_key="authorization_code", grant=True)
+                owner, st = si["client_id"], si["grant"].authorization_request.get("state")
+            except Exception as e:
+                owner, st = "unknown (%s)" % type(e).__name__, req.get("state")
+            if owner != sp["cid"] or st != req.get("state"):
+                ctx.violation("code-of-other-request", "the code delivered for %s was issued to client %r for the request with state %r"
+                              % (where, owner, st), rec)
+
+    # ---- one flight
+    def fly(self, etype, specs, sched, family):
+        ctx = self.ctx
+        op = self.run_.ops[etype]
+        self.prepare(op)
+        for sp in specs:
+            op.configure([c for c in CONFIGS if c[0] == sp["config"]][0], sp["cid"])
+        answers, notes = self.host(op, specs, sched)
+        rec = {"kind": "flight", "endpoint_type": etype, "family": family, "specs": specs, "schedule": [list(e) for e in sched],
+               "schedule_text": sched_text(sched),
+               "answers": [{"i": a["i"], "kind": a["kind"], "out": (a.get("text") or a.get("what") or a.get("exc") or "")[:400]} for a in answers]}
+        ctx.case_seen(rec, True)
+        ctx.count("flight:%s:k=%d" % (family, len(specs)))
+        for a in answers:
+            ctx.count("flight-answer:" + a["kind"])
+            if a["kind"] in ("redirect", "page"):
+                ctx.count("flight-cont:" + specs[a["i"]]["cont"])
+            self.oracle(op, etype, specs, sched, a, rec)
+        # a request that was parsed successfully, processed and responded to must have been answered
+        for i, sp in enumerate(specs):
+            evs = [k for k, j in sched if j == i]
+            if "respond" in evs and not [a for a in answers if a["i"] == i]:
+                ctx.violation("flight-no-answer", "request %d gets no answer in schedule [%s]" % (i, sched_text(sched)), rec)
+        # ---- model case: (requests with what was issued for them, schedule, answers)
+        by_i = {}
+        for a in answers:
+            by_i.setdefault(a["i"], a)
+        reqs_c, obs_c = [], {}
+        try:
+            for i, sp in enumerate(specs):
+                cfg = [c for c in CONFIGS if c[0] == sp["config"]][0]
+                req = sp["request"]
+                uri = req.get("redirect_uri") or None
+                a = by_i.get(i)
+                form = req.get("response_mode") == "form_post"
+                frag = req["response_type"] != "code"
+                items = []
+                if a is not None and a["kind"] == "redirect":
+                    items, text = shorten(a.get("final_args") or [], a["text"], UP.quote_plus)
+                    obs_c[i] = "(ARedirect %s)" % coq_str(text)
+                elif a is not None and a["kind"] == "page":
+                    items, text = shorten(a.get("issued") or [], a["text"], lambda x: x)
+                    obs_c[i] = "(APage %s)" % coq_str(text)
+                elif a is not None:
+                    obs_c[i] = {"direct": "ADirect", "raised": "ARaised"}.get(a["kind"], "AOther")
+                    items = a.get("final_args") or []
+                if uri is None and etype == "oidc":
+                    raise ValueError("the OIDC request class itself requires redirect_uri")
+                reqs_c.append("(mk_areq %s %s %s %s %s %s %s)" % (coq_regs(cfg[2]), coq_bool(cfg[1] == "native"), coq_bool(etype == "oidc"),
+                                                                 coq_opt(uri, coq_str, "pystr"), coq_bool(form), coq_bool(frag), coq_args(items)))
+            if len([a for a in answers]) != len(by_i):
+                raise ValueError("a request answered twice")
+            term = "(%s, %s, %s)" % (coq_list(reqs_c, "areq"),
+                                     coq_list(["%s %d%%nat" % (EV_COQ[k], i) for k, i in sched], "event"),
+                                     coq_list(["(%d%%nat, %s)" % (a["i"], obs_c[a["i"]]) for a in answers], "(nat * answer)"))
+            self.cases.append((term, rec))
+        except ValueError:
+            ctx.unmodelled += 1
+        return answers
+
+    # ---- generation
+    def pick_configs(self, rng, k, distinct=True):
+        pool = [c for c in CONFIGS if c[0] in FLIGHT_CONFIGS]
+        if distinct:
+            return rng.sample(pool, k)
+        return [rng.choice(pool) for _ in range(k)]
+
+    def run(self, rng, quick):
+        by = {c[0]: c for c in CONFIGS}
+        # (1) enumerated: two clients, every ordering of parse and of process / login continuation, responses early or late,
+        #     over the response modes of the first and the second request
+        pairs = [("web-plain", "web-query"), ("web-multi", "native-v4"), ("web-str-query", "web-userinfo")]
+        for etype in ("oidc", "oauth2"):
+            for (ca, cb_) in pairs if not quick else pairs[:2]:
+                for ma in (None, "fragment", "form_post"):
+                    for cont in ("process", "setup_auth", "create_session"):
+                        specs = [self.spec(rng, etype, 0, "client_1", by[ca], mode=ma, cont=cont),
+                                 self.spec(rng, etype, 1, "client_2", by[cb_])]
+                        for po in permutations([0, 1]):
+                            for xo in permutations([0, 1]):
+                                self.fly(etype, specs, sched_parse_all(specs, po, xo, rng.random() < 0.5), "parse-all")
+                        if cont != "process":
+                            # both users sit at the login page at the same time
+                            specs = [specs[0], dict(specs[1], cont=rng.choice(["setup_auth", "create_session"]))]
+                            for ao in permutations([0, 1]):
+                                for xo in permutations([0, 1]):
+                                    self.fly(etype, specs, sched_split_login(specs, rng.choice(permutations([0, 1])), ao, xo,
+                                                                             rng.random() < 0.5), "split-login")
+        # (2) three clients: every processing order after every parse order
+        n3 = 1 if quick else 6
+        for etype in ("oidc", "oauth2"):
+            for _ in range(n3):
+                cfgs = self.pick_configs(rng, 3)
+                specs = [self.spec(rng, etype, i, FLIGHT_CLIENTS[i], cfgs[i]) for i in range(3)]
+                for po in permutations([0, 1, 2]):
+                    for xo in permutations([0, 1, 2]):
+                        self.fly(etype, specs, sched_parse_all(specs, po, xo, rng.random() < 0.5), "parse-all")
+        # (3) the same client twice with two of its registered URIs; one request refused while others are in flight
+        for etype in ("oidc", "oauth2"):
+            r1, r2 = by["web-multi"][2]
+            specs = [self.spec(rng, etype, 0, "client_1", by["web-multi"], uri=reg_exact(r1)),
+                     self.spec(rng, etype, 1, "client_1", by["web-multi"], uri=reg_exact(r2)),
+                     self.spec(rng, etype, 2, "client_2", by["web-deep"], uri="mutant")]
+            for xo in permutations([0, 1, 2]):
+                self.fly(etype, specs, sched_parse_all(specs, [0, 1, 2], xo, False), "same-client")
+                self.fly(etype, specs, sched_parse_all(specs, [1, 2, 0], xo, True), "same-client")
+        # (4) random flights: 2-4 requests, mostly valid URIs, arbitrary interleavings of all calls
+        n = 60 if quick else 2500
+        for _ in range(n):
+            etype = rng.choice(["oidc", "oauth2"])
+            k = rng.choice([2, 2, 3, 3, 4])
+            cfgs = self.pick_configs(rng, k, distinct=rng.random() < 0.8) if k <= 3 else None
+            specs = []
+            for i in range(k):
+                cid = FLIGHT_CLIENTS[i % 3]
+                cfg = cfgs[i] if cfgs else None
+                if cfg is None:
+                    # a fourth request shares the client (and so the configuration) of the first
+                    cfg = by[specs[0]["config"]] if i == 3 else self.pick_configs(rng, 1)[0]
+                x = rng.random()
+                uri = "exact" if x < 0.8 else ("mutant" if x < 0.95 or etype == "oidc" else None)
+                if uri is None and len(cfg[2]) != 1:
+                    uri = "exact"
+                specs.append(self.spec(rng, etype, i, cid, cfg, uri=uri))
+            x = rng.random()
+            if x < 0.45:
+                po, xo, ao = list(range(k)), list(range(k)), list(range(k))
+                rng.shuffle(po)
+                rng.shuffle(xo)
+                rng.shuffle(ao)
+                if rng.random() < 0.6:
+                    self.fly(etype, specs, sched_parse_all(specs, po, xo, rng.random() < 0.5), "parse-all")
+                else:
+                    self.fly(etype, specs, sched_split_login(specs, po, ao, xo, rng.random() < 0.5), "split-login")
+            elif x < 0.9:
+                self.fly(etype, specs, sched_random(rng, specs), "random-merge")
+            else:
+                self.fly(etype, specs, [e for i in range(k) for e in life(specs[i], i)], "sequential")
+        self.restore()
+        return self.groups()
+
+    def groups(self):
+        return [{"imports": ["Lib.Base", "Lib.PyStr", "Lib.Urlenc", "Lib.Html", "Model.Uri", "Model.Delivery", "Model.Flight"],
+                 "type": "fcase", "chk": "chk_flight", "cases": self.cases, "shard": 24, "label": "flight", "diag": "diag_flight"}]
+
+
 # ------------------------------------------------------------------ end-session endpoint
 class Logout:
     CONFIGS = [
@@ -1130,10 +1566,13 @@ def run(ctx):
         cfg = rng.choice(good)
         etype = rng.choice(["oidc", "oauth2"])
         run_.endpoint_case(cfg, etype, "exact", reg_exact(rng.choice(cfg[2])), rng)
-    # 4. end-session
+    # 4. several requests in flight at one endpoint object (interleaved calls, login continuation)
+    fl = Flights(run_)
+    extra = fl.run(rng, quick)
+    # 5. end-session
     lo = Logout(ctx, run_.ops["oidc"])
-    extra = lo.run(rng, 40 if quick else 1500)
-    # 5. html.escape itself
+    extra += lo.run(rng, 40 if quick else 1500)
+    # 6. html.escape itself
     extra += html_cases(ctx, rng, 200 if quick else 5000)
     run_.flush(extra)
     sigs = {}
@@ -1158,6 +1597,14 @@ def replay(ctx, rp):
         run_.endpoint_case(cfg, case["endpoint_type"], case["mutation"], req.get("redirect_uri"), ctx.rng,
                            rtype=req["response_type"], mode=req.get("response_mode"), state=req.get("state"))
         run_.flush()
+        return
+    if case.get("kind") == "flight":
+        run_ = Run(ctx)
+        fl = Flights(run_)
+        print("replaying schedule [%s] on the %s endpoint" % (sched_text([tuple(e) for e in case["schedule"]]), case["endpoint_type"]))
+        fl.fly(case["endpoint_type"], case["specs"], [tuple(e) for e in case["schedule"]], case.get("family", "replay"))
+        fl.restore()
+        check_groups(ctx, fl.groups())
         return
     if case.get("kind") == "end_session":
         run_ = Run(ctx)
